@@ -13,7 +13,8 @@ def fill(claim, na):
           "must-dataflow over CFG branch facts (half-open bound dominates every index/translated forward); "
           "empty-optional edge must reach exit only via throw; linear forms over accessors for the extents each Volume "
           "is created with; coordinate consistency (linear forms through the constructor) of the bound in Volume::Access; "
-          "agreement of each FileView's limit with its own geometry; dependency analysis of the MMB slot offset",
+          "agreement of each FileView's limit with its own geometry; dependency analysis of the MMB slot offset; "
+          "unconditional trimming of every Opus volume; probe reads independent of catalogue entries",
           "Decides the bound clause for all inputs: every override of DataAccess::read_block and the sector cache "
           "index or forward only under `arg < count` on every CFG path, and a failed body read can only throw. "
           "Each Opus volume's window is (start, length) from the disc catalogue and is what Volume::Access checks "
@@ -27,7 +28,7 @@ def fill(claim, na):
           "divisors, non-empty containers at every back()/front()/pop (must-facts, must-append dataflow, constructor "
           "class invariant), recursive diagnose-on-failure classification of every command path; may-state analysis "
           "`a rewind is paired with a state change` in the track decoders; raw-bound / successful-scan dominance for "
-          "every BitStream access (call-graph chains)",
+          "every BitStream access (call-graph chains); copy census for classes that own a raw pointer",
           "Decides ten structural necessary conditions of clean failure for all inputs (nine were violated by a hostile "
           "file or command line before the fix: commits). Does not decide general memory safety/termination of the "
           "parsers or assertion reachability.",
@@ -41,7 +42,7 @@ def fill(claim, na):
           "refined by dominating comparisons for input-dependent subscripts and the lengths of library calls on fixed "
           "arrays; path-sensitive resource typestate (allocate/release/NULL) for locally released pointers; must-analysis "
           "`table filled` for the extension-table builders; NULL-able table strings vs. non-NULL facts (fclose(NULL) "
-          "counts as a use of an invalid handle)",
+          "counts as a use of an invalid handle); by-value copy census for records that point into themselves",
           "Decides, for every command line and input, that option state is initialised in both builds, that no option "
           "handler can see a NULL optarg or an unset long index, that main returns 0 or 1 without exit/abort and never "
           "silently, that every byte read through the token cursor is covered by a remaining-length guard, and that "
@@ -61,7 +62,8 @@ def fill(claim, na):
           "helper; census of stream-state resets (on std::cout or on any reference/pointer to the base ostream) and direct "
           "stream-buffer use; typestate of every local ofstream "
           "(close, then tested good, on every non-failure scope exit); flush+ferror typestate in bbcbasic_to_text main; "
-          "must-analysis `status known true` at every overwrite of a returned status inside a loop",
+          "must-analysis `status known true` at every overwrite of a returned status inside a loop; results of write()/fwrite() "
+          "compared with the requested count",
           "Decides the structural part for every output length and failure offset: exit status 0 is only reachable on "
           "paths where the output streams were flushed/closed and afterwards found good. Behaviour of the C++/C "
           "libraries under write failure is trusted, not analysed.",
@@ -72,7 +74,8 @@ def fill(claim, na):
           "dominates the line decoder; static-storage write census; discarded-result and sticky-exit-status rules; "
           "table/override contradiction folded per dialect; CFG reachability rule for multi-byte token handlers (success "
           "only through an edge establishing that the follow-on byte exists); may-analysis `input consumed while "
-          "the nothing-consumed flag is still set`",
+          "the nothing-consumed flag is still set`; success returns of the program readers dominated by end-of-input or a "
+          "consumed end marker",
           "Decides the structural root causes for every input and truncation point (no byte is fabricated from EOF, no "
           "stale buffer content reaches the decoder, failures reach a sticky exit status, no cross-file state). The "
           "prefix relation itself is not decided. One known finding (0x7F) is listed.",
@@ -110,7 +113,7 @@ def fill(claim, na):
           "through bool parameters and function pointers; purity of callees with local-effect refinement); "
           "field-wise check of the presentation option handlers; single-consumer census for UI/terminal inputs; "
           "non-determinism census; may-throw sets of the functions that read the environment; const-ness of what runs "
-          "under --show-config",
+          "under --show-config; must-analysis `errno cleared` before every decision on errno; census of modifiable statics",
           "Decides the structural part for every image and command: nothing executed only under --verbose or "
           "--show-config can alter standard output, exit status or program state; --ui/COLUMNS reach only cat. "
           "Equality of outputs as such is not executed or compared.",
@@ -122,7 +125,7 @@ def fill(claim, na):
           "one pass of update() evaluated on all paths, affine case splits, against the CCITT step); source-order and "
           "sign-extension-use rules on the info line and .inf writer; sibling-agreement rule on cat's tests for the "
           "current directory (sort comparator vs. listing loop); optional-ness of the cycle number up to where it is "
-          "printed; enumeration of occupied drives walks the table",
+          "printed; enumeration of occupied drives walks the table; provenance of the format recorded per surface",
           "Decides the field-decoding clauses exhaustively (all 2^64 metadata values, all header bytes): every field "
           "shown by info/cat/.inf comes from exactly the documented bits; sign extension and CRC-16 are the documented "
           "functions; cat's sorter and printer classify 'current directory' by the same exact comparison. Column "
@@ -135,7 +138,7 @@ def fill(claim, na):
           "with constant folding of the empty-file case; shape rule for last_sector(); contradiction rule on table-walking "
           "loops (an early `continue` whose condition cannot change on the continue path); linear form of the Opus "
           "catalogue slot; must-analysis `sorted before extents are derived`; must-fact `length non-zero` where the "
-          "catalogue validator remembers the previous file",
+          "catalogue validator remembers the previous file; byte-count agreement of `type` with the piece it is handed",
           "Decides structural clauses for every catalogue value: right bits, right volume, remaining-length "
           "accounting, empty file hands over nothing, no table walk (Opus volume table) silently stops at its first "
           "skipped entry. Unrecognised code shapes are reported as undecided (exit 2), "
@@ -157,7 +160,7 @@ def fill(claim, na):
           "table on every identifying return of probe_format and the Acorn test; constant-sector read census; "
           "guard/usage analysis of the Opus volume-table checks; must-fact `format is HDFS` at every two-sided answer; "
           "linear form of the Opus catalogue slot; provenance of the format recorded for each surface (identified on that "
-          "device, in that pass)",
+          "device, in that pass); probe reads independent of catalogue entries",
           "Decides structural clauses for every disc: the guard uses the full start sector, each variant is returned "
           "only under the marker outcomes the property lists, identification reads only marker sectors by number, "
           "the Opus table's self-consistency does not depend on a geometry, the two-sided flag is honoured for HDFS "
@@ -169,7 +172,8 @@ def fill(claim, na):
           "per-byte folding of the wildcard translator's switch into emitted fragments, each parsed with a POSIX ERE "
           "grammar written in the checker and compared with the AFSP one-character language; ERE parse of the "
           "canonicalisation patterns; structural rule on the case-folding comparator; member-wise completeness of the "
-          "selector classes' copy assignment",
+          "selector classes' copy assignment; must-analysis `result known empty` at every overwrite of a lookup result in a "
+          "loop; early-exit census of info's entry loop",
           "Decides the translation clause for all 255 byte values (so no wildcard character can act as an operator or "
           "be rejected), that the canonicalisation patterns are well-formed with the groups the code indexes, and "
           "that names are compared by tolower/toupper folding. regexec itself and drive/directory defaulting are not decided.",
@@ -193,7 +197,7 @@ def fill(claim, na):
           "table agreement of the MMB reader with doc/mmb.5 (status switch folded per value, size constants); "
           "dependency analysis of the slot offset; shape rule on the two-sided view parameters; polynomial identity "
           "(normal forms with integer-division atoms) for the stride formula; loop-condition independence of the MMB "
-          "table scan; base-10 census of numeric argument parsing",
+          "table scan; base-10 census of numeric argument parsing; every surface attached with its device",
           "Decides structural clauses for every container, geometry and slot: out-of-surface reads fail, no short block "
           "is served, MMB statuses/sizes are the documented ones, a slot's offset depends on its number only, and the "
           "interleaved/non-interleaved views have the documented take/leave/skip shape, and the position forwarded "
@@ -205,7 +209,8 @@ def fill(claim, na):
           "error switch and window-bits constant; CFG exit analysis of the inflate loop; zlib entry-point census; "
           "member-continuation rule with EOF-evidence reachability; opener selection rule; bound of every buffer "
           "growth in both FileAccess::read implementations; zlib-counter and mutable-static censuses; short-read edge "
-          "of the decompressed read returns the data; signedness of the seek-back offset",
+          "of the decompressed read returns the data; signedness of the seek-back offset; no exit of the inflate function "
+          "controlled by a running total",
           "Decides structural clauses for every image and .gz stream: compressed and uncompressed names get the same "
           "identification hints, only gzip framing is accepted, every zlib error raises, the loop ends only at the "
           "end of the last member, integrity checks are not disabled. Equality of outputs is not executed.",
